@@ -1,0 +1,134 @@
+//go:build verif
+
+// C15: snap-initiated refresh holds are bounded. Contracts for the deductive verifier in
+// /verif (govc). Only compiled with -tags verif.
+
+package snapstate
+
+import (
+	"time"
+
+	"github.com/snapcore/snapd/overlord/state"
+)
+
+// timeNow is time.Now except in tests
+//@ func var:timeNow
+//@   trusted
+//@   assigns nothing
+
+// lastRefreshOf(st, name) is a name for "the last refresh time of the snap", i.e. for what lastRefreshed reports
+//@ func lastRefreshOf
+//@   opaque
+//@   reads nothing
+
+// lastRefreshed reads the snap's state entry (JSON) and, failing that, stats the snap file
+//@ func lastRefreshed
+//@   trusted
+//@   assigns nothing
+//@   ensures result1 == nil ==> result0 == lastRefreshOf(st, snapName)
+
+//@ func maxAllowedPostponement
+//@   props C15
+//@   ensures [self] affectedSnap == gatingSnap ==> result == maxPostponement
+//@   ensures [other-48h] affectedSnap != gatingSnap ==> result == 48 * time.Hour
+
+//@ func holdDurationLeft
+//@   props C15
+//@   ensures [le-episode] result <= firstHeld.Add(maxDuration).Sub(now)
+//@   ensures [le-refresh] result <= lastRefresh.Add(maxPostponement).Sub(now)
+//@   ensures [one-of] result == firstHeld.Add(maxDuration).Sub(now) || result == lastRefresh.Add(maxPostponement).Sub(now)
+
+//@ func HoldRefresh
+//@   props C15
+//@   loop 0: invariant [duration-kept] holdDuration == old(holdDuration) || (gatingSnap == "system" && old(holdDuration) == 0 && holdDuration == maxDuration)
+//@   loop 0: invariant [herr] herr != nil && herr.SnapsInError != nil
+//@   guard store holdState.FirstHeld: [episode-start] val == now && !has(gating[heldSnap], gatingSnap)
+//@   guard store holdState.HoldUntil: [system-as-requested] gatingSnap == "system" ==> val == now.Add(ite(old(holdDuration) == 0, maxDuration, old(holdDuration)))
+//@   guard store holdState.HoldUntil: [episode-bound] gatingSnap != "system" && old(holdDuration) == 0 ==> !val.After(hold.FirstHeld.Add(maxAllowedPostponement(gatingSnap, heldSnap, 90 * 24 * time.Hour)))
+//@   guard store holdState.HoldUntil: [default-is-what-is-left] gatingSnap != "system" && old(holdDuration) == 0 ==> left > 0 && val == now.Add(left)
+//@   guard call lastRefreshed: [of-held-snap] arg0 == st && arg1 == heldSnap
+//@   guard store holdState.HoldUntil: [refresh-90d] gatingSnap != "system" ==> !val.After(lastRefreshOf(st, heldSnap).Add(90 * 24 * time.Hour))
+//@   guard call holdDurationLeft: [args] arg0 == now && arg1 == lastRefreshTime && arg2 == hold.FirstHeld && arg3 == maxAllowedPostponement(gatingSnap, heldSnap, 90 * 24 * time.Hour) && arg4 == 90 * 24 * time.Hour
+//@   guard mapstore HoldError.SnapsInError: [refused-only-when-exhausted] m == herr.SnapsInError && key == heldSnap && gatingSnap != "system" && (left <= 0 || (holdDuration != 0 && holdDuration > maxDur))
+//@   loop 0: step [refused-when-exhausted] gatingSnap != "system" && left <= 0 ==> has(herr.SnapsInError, heldSnap)
+//@   loop 0: step [refusals-kept] forall k string :: old(has(herr.SnapsInError, k)) ==> has(herr.SnapsInError, k)
+//@   loop 1: invariant [herr1] herr != nil && len(herr.SnapsInError) > 0 && -1 <= idx1 && idx1 < len(affectingSnaps)
+//@   loop 1: invariant [released] forall j int :: 0 <= j && j <= idx1 ==> !has(gating[affectingSnaps[j]], gatingSnap)
+//@   guard call (*State).Set: [released-on-refusal] arg1 == "snaps-hold" && arg2v == gating && (len(herr.SnapsInError) > 0 ==> forall j int :: 0 <= j && j < len(affectingSnaps) ==> !has(gating[affectingSnaps[j]], gatingSnap))
+//@   ensures [error-when-refused] result1 == nil ==> final(herr) != nil && len(final(herr).SnapsInError) == 0
+
+// the administrator's request is passed on as a "system" hold of the requested level; "forever" is the zero duration
+//@ func HoldRefreshesBySystem
+//@   props C15
+//@   guard call HoldRefresh: [as-system] arg0 == st && arg1 == level && arg2 == "system" && (old(holdTime) == "forever" ==> arg3 == 0)
+//@   guard call HoldRefresh: [timed-is-not-forever] old(holdTime) != "forever" ==> arg3 != 0
+
+// the default hold (now + what is left) stays within both bounds
+//@ func lemmaDefaultHoldBounded
+//@   lemma
+//@   props C15
+//@   ensures [90d] !now.Add(holdDurationLeft(now, lastRefresh, firstHeld, maxAllowedPostponement(gatingSnap, heldSnap, 90 * 24 * time.Hour), 90 * 24 * time.Hour)).After(lastRefresh.Add(90 * 24 * time.Hour))
+//@   ensures [48h] gatingSnap != heldSnap ==> !now.Add(holdDurationLeft(now, lastRefresh, firstHeld, maxAllowedPostponement(gatingSnap, heldSnap, 90 * 24 * time.Hour), 90 * 24 * time.Hour)).After(firstHeld.Add(48 * time.Hour))
+//@   ensures [refused-at-bound] (!now.Before(lastRefresh.Add(90 * 24 * time.Hour)) || (gatingSnap != heldSnap && !now.Before(firstHeld.Add(48 * time.Hour)))) ==> holdDurationLeft(now, lastRefresh, firstHeld, maxAllowedPostponement(gatingSnap, heldSnap, 90 * 24 * time.Hour), 90 * 24 * time.Hour) <= 0
+
+// ---- reporting ----------------------------------------------------------------------------------
+
+// the hold is in force at `now` for operations of the given level
+//@ define holdEffective(h *holdState, holder string, level HoldLevel, lastRefresh time.Time, now time.Time) = h.Level >= level && (holder == "system" || !lastRefresh.Add(95 * 24 * time.Hour).Before(now)) && !h.HoldUntil.Before(now)
+
+//@ func HeldSnaps
+//@   props C15
+//@   guard call lastRefreshed: [of-held-snap] arg0 == st && arg1 == heldSnap
+//@   loop 1: invariant [of-this-snap] holds == gating[heldSnap] && lastRefresh == lastRefreshOf(st, heldSnap)
+//@   loop 1: step [reported-iff-effective] holdEffective(hold, holdingSnap, level, lastRefresh, now) ==> len(held[heldSnap]) == old(len(held[heldSnap])) + 1 && held[heldSnap][len(held[heldSnap]) - 1] == holdingSnap
+//@   loop 1: step [not-reported] !holdEffective(hold, holdingSnap, level, lastRefresh, now) ==> held[heldSnap] == old(held[heldSnap])
+//@   loop 1: step [earlier-kept] forall i int :: 0 <= i && i < old(len(held[heldSnap])) ==> held[heldSnap][i] == old(held[heldSnap][i])
+//@   loop 1: step [other-snaps] forall k string :: k != heldSnap ==> held[k] == old(held[k])
+
+// ---- refresh resets snap holds, administrator holds stay --------------------------------------
+
+// govc's map references carry no Go type, so it cannot see that the outer table (map[string]map[string]*holdState)
+// and one of its entries (map[string]*holdState) are different objects; the clauses that need this say so
+// explicitly (gating != old(gating[snapName])), Go's typing makes that hypothesis always true.
+//@ func pruneHoldStatesForSnap
+//@   props C15
+//@   ensures [system-hold-survives] old(has(gating[snapName], "system")) && gating != old(gating[snapName]) ==> has(old(gating[snapName]), "system") && old(gating[snapName])["system"] == old(gating[snapName]["system"])
+//@   ensures [entry-removed-only-when-empty] gating != old(gating[snapName]) && old(has(gating, snapName)) && !(has(gating, snapName) && gating[snapName] == old(gating[snapName])) ==> len(old(gating[snapName])) == 0
+//@   ensures [snap-holds-dropped] forall k string :: k != "system" ==> !has(old(gating[snapName]), k)
+//@   ensures [others-untouched] gating != old(gating[snapName]) ==> forall s string :: s != snapName ==> has(gating, s) == old(has(gating, s)) && gating[s] == old(gating[s])
+//@   ensures [entry-same-or-gone] gating != old(gating[snapName]) ==> !has(gating, snapName) || gating[snapName] == old(gating[snapName])
+//@   ensures [system-holds-stay] forall m map[string]*holdState :: m != gating ==> has(m, "system") == old(has(m, "system")) && m["system"] == old(m["system"])
+//@   ensures [unchanged-means-nothing-dropped] !result ==> forall k string :: has(old(gating[snapName]), k) == old(has(gating[snapName], k))
+//@   ensures [unchanged-means-no-entry-dropped] !result ==> forall s string :: has(gating, s) == old(has(gating, s))
+//@   ensures [hold-objects-untouched] forall h *holdState :: h.HoldUntil == old(h.HoldUntil) && h.FirstHeld == old(h.FirstHeld) && h.Level == old(h.Level)
+//@   loop 0: invariant [alias] holdingSnaps == old(gating[snapName])
+//@   loop 0: invariant [dropped] forall k string :: {visited(k)} visited(k) && k != "system" ==> !has(holdingSnaps, k)
+//@   loop 0: invariant [subset] forall k string :: has(holdingSnaps, k) ==> old(has(gating[snapName], k))
+//@   loop 0: invariant [system-kept] old(has(gating[snapName], "system")) ==> has(holdingSnaps, "system") && holdingSnaps["system"] == old(gating[snapName]["system"])
+//@   loop 0: invariant [outer-dom] gating != holdingSnaps ==> forall s string :: has(gating, s) == old(has(gating, s))
+//@   loop 0: invariant [outer-val] gating != holdingSnaps ==> forall s string :: gating[s] == old(gating[s])
+//@   loop 0: invariant [system-everywhere] forall m map[string]*holdState :: has(m, "system") == old(has(m, "system")) && m["system"] == old(m["system"])
+//@   loop 0: invariant [unchanged] !changed ==> forall k string :: has(holdingSnaps, k) == old(has(gating[snapName], k))
+//@   loop 0: invariant [unchanged-outer] !changed ==> forall s string :: has(gating, s) == old(has(gating, s))
+//@   loop 0: invariant [objects] forall h *holdState :: h.HoldUntil == old(h.HoldUntil) && h.FirstHeld == old(h.FirstHeld) && h.Level == old(h.Level)
+
+// A refresh of a snap drops the holds other snaps (and the snap itself) put on it, so that the next hold starts a new
+// episode with a new FirstHeld; the administrator's hold and every hold record stay as they are. Stated per loop
+// iteration (the table is read inside the function, so there is no entry value to compare the end with).
+//@ func resetGatingForRefreshed
+//@   props C15
+//@   guard call pruneHoldStatesForSnap: [the-refreshed-snap] arg0 == gating && arg1 == snapName
+//@   guard call (*State).Set: [stored] arg1 == "snaps-hold" && arg2v == gating
+//@   loop 0: step [snap-holds-dropped] gating != before(gating[snapName]) ==> forall k string :: k != "system" ==> !has(gating[snapName], k)
+//@   loop 0: step [system-holds-stay] forall m map[string]*holdState :: m != gating ==> has(m, "system") == old(has(m, "system")) && m["system"] == old(m["system"])
+//@   loop 0: step [system-held-entry-stays] gating != before(gating[snapName]) && before(has(gating, snapName)) && !(has(gating, snapName) && gating[snapName] == before(gating[snapName])) ==> len(before(gating[snapName])) == 0
+//@   loop 0: step [hold-objects-untouched] forall h *holdState :: h.HoldUntil == old(h.HoldUntil) && h.FirstHeld == old(h.FirstHeld) && h.Level == old(h.Level)
+//@   loop 0: step [dropped-in-this-step-means-changed] !changed ==> (forall k string :: has(before(gating[snapName]), k) == before(has(gating[snapName], k))) && (forall s string :: has(gating, s) == before(has(gating, s)))
+//@   loop 0: step [other-snaps] gating != before(gating[snapName]) ==> forall s string :: s != snapName ==> has(gating, s) == before(has(gating, s)) && gating[s] == before(gating[s])
+
+func lastRefreshOf(st *state.State, snapName string) time.Time {
+	return time.Time{}
+}
+
+func lemmaDefaultHoldBounded(now, lastRefresh, firstHeld time.Time, gatingSnap, heldSnap string) {
+}
